@@ -137,22 +137,36 @@ def r03_2(prog: Program, rep: Report):
             rep.held("R03.2", c.qualname, f.loc, "pass-through routine for unresolvable types (by contract)", nontrivial=False)
             continue
         seen = set()
-        for p, r in P.returns(P.paths_of(prog, f)):
-            key = T.show(r)[:120]
-            ok = False
-            why = ""
+        def _alts(tm, conds=()):
+            if tm[0] == "ifexp":
+                return _alts(tm[2], conds + ((tm[1], True),)) + _alts(tm[3], conds + ((tm[1], False),))
+            return [(tm, conds)]
+
+        def _judge(p, r, extra=()):
+            gs = list(p.guards()) + list(extra)
             if constructed(r):
-                ok, why = True, "constructed from the target class"
-            elif target_guard(p.guards(), r):
-                ok, why = True, "class-guarded on this path"
-            elif r == ("const", None) and any(g[0] == "cmp" and g[3] == ("const", None) for g, _ in p.guards()):
-                ok, why = True, "None after a None test"
-            elif r[0] == "call" and r[1] == C.sattr("resolved"):
-                ok, why = True, "delegation to the resolved routine"
-            elif r[0] == "call" and r[1][0] == "attr" and r[1][2] == "__call__" and T.is_call_to(r[1][1], "builtins.super"):
-                ok, why = True, "delegation to the parent routine (checked on its own)"
-            elif any(pol and g[0] == "cmp" and g[1] == "in" and g[2] == r and g[3] == C.sattr("values") for g, pol in p.guards()):
-                ok, why = True, "member of the literal's values"
+                return True, "constructed from the target class"
+            if target_guard(gs, r):
+                return True, "class-guarded on this path"
+            if r == ("const", None) and any(g[0] == "cmp" and g[3] == ("const", None) for g, _ in gs):
+                return True, "None after a None test"
+            if r[0] == "call" and r[1] == C.sattr("resolved"):
+                return True, "delegation to the resolved routine"
+            if r[0] == "call" and r[1][0] == "attr" and r[1][2] == "__call__" and T.is_call_to(r[1][1], "builtins.super"):
+                return True, "delegation to the parent routine (checked on its own)"
+            if any(pol and g[0] == "cmp" and g[1] == "in" and g[2] == r and g[3] == C.sattr("values") for g, pol in gs):
+                return True, "member of the literal's values"
+            return False, ""
+
+        # (private helper methods are read in place)
+        for p, r in P.returns(P.spaths(prog, f, cls=c)):
+            key = T.show(r)[:120]
+            ok, why = _judge(p, r)
+            if not ok and r[0] == "ifexp":
+                # a returned conditional expression is each of its arms under its test
+                verdicts = [_judge(p, a, ex) for a, ex in _alts(r)]
+                if all(v for v, _ in verdicts):
+                    ok, why = True, "each arm: " + "; ".join(sorted({w for _, w in verdicts}))
             if (key, ok) in seen:
                 continue
             seen.add((key, ok))
